@@ -104,6 +104,15 @@ func C03WalkModel(root any, visit func(node any, ancestors []any) bool) {
 				walk(v.Elem(), append(append([]any(nil), anc...), node))
 				return
 			}
+			if v.Elem().Kind() == reflect.Slice && strings.HasSuffix(v.Elem().Type().PkgPath(), "cypher/models/cypher") {
+				// named slice types of the model, e.g. *cypher.ListLiteral
+				node := v.Interface()
+				if !visit(node, anc) {
+					return
+				}
+				walk(v.Elem(), append(append([]any(nil), anc...), node))
+				return
+			}
 			walk(v.Elem(), anc)
 		case reflect.Interface:
 			if !v.IsNil() {
@@ -254,6 +263,18 @@ var C03OpenFindings = []C03Finding{
 	{"C03-pattern-predicate-with-update", C03PatternPredicateWithUpdate},
 	{"C03-unwind-with-update", C03UnwindWithUpdate},
 	{"C03-path-with-update", C03PathWithUpdate},
+	{"C03-pattern-predicate-before-later-clause", C03PatternPredicateBeforeLaterClause},
+	{"C03-expansion-constraint-spans-bindings", C03ExpansionConstraintSpansBindings},
+	{"C03-unwind-variable-in-later-match", C03UnwindVariableInLaterMatch},
+	{"C03-path-projected-with-aggregate", C03PathProjectedWithAggregate},
+	{"C03-unwound-entity-in-pattern", C03UnwoundEntityInPattern},
+	{"C03-with-where-on-entity-alias", C03WithWhereOnEntityAlias},
+	{"C03-order-by-ungrouped-after-aggregate", C03OrderByUngroupedAfterAggregate},
+	{"C03-variable-length-relationship-as-entity", C03VariableLengthRelationshipAsEntity},
+	{"C03-pattern-predicate-introduces-variable", C03PatternPredicateIntroducesVariable},
+	{"C03-empty-list-literal", C03EmptyListLiteral},
+	{"C03-nested-aggregate", C03NestedAggregate},
+	{"C03-variable-rebound-with-other-role", C03VariableReboundWithOtherRole},
 }
 
 // C03ExcludedBy returns the id of the first open finding whose shape the query has ("" = none).
@@ -376,13 +397,33 @@ func C03UnwindBeforeOptionalMatch(q *cypher.RegularQuery) bool {
 // sub-select whose own aliases (_kind, _kind_idx, the unnest alias) and table names are counted as if the
 // enclosing query had to define them, so no frame ever qualifies and the conjunct is only placed by the
 // final "consume everything" step – after a WITH has pruned the bindings it reads (`n0.kind_ids` with no
-// n0 in scope). Shape: a MATCH in a query part that ends in WITH whose WHERE contains labels(), a
-// quantifier, or a reference to a path variable.
+// n0 in scope). Shape: a MATCH whose WHERE contains labels(), a quantifier, or a reference to a path variable,
+// in a query part that ends in WITH or contains a non-leading OPTIONAL MATCH, or next to a pattern predicate
+// in the same WHERE (each of these puts a frame between the MATCH and the final select).
 func C03SubselectPredicateBeforeWith(q *cypher.RegularQuery) bool {
 	cs := C03Clauses(q)
 	paths := c03PathVariables(cs)
+	// the WHERE of a WITH is itself placed in the next query part; if that part is not the last one the same
+	// happens one part later
 	for i, c := range cs {
-		if c.Match == nil || c.Match.Where == nil || !c03PartEndsWithWith(cs, i) {
+		if c.With != nil && c.With.Where != nil && i+1 < len(cs) &&
+			c03Contains(c.With.Where, func(n any) bool { return c03IsFunction(n, "labels") || c03IsQuantifier(n) }) {
+			return true
+		}
+	}
+	for i, c := range cs {
+		if c.Match == nil || c.Match.Where == nil {
+			continue
+		}
+		// what cuts the bindings off: the WITH that ends the part, the aggregation frame of a non-leading
+		// OPTIONAL MATCH of the part, or the frame shift that a pattern predicate in the same WHERE causes
+		boundary := c03PartEndsWithWith(cs, i) || c03Contains(c.Match.Where, c03IsPatternPredicate)
+		for _, j := range c03NonFirstOptional(cs) {
+			if cs[j].Part == c.Part {
+				boundary = true
+			}
+		}
+		if !boundary {
 			continue
 		}
 		if c03Contains(c.Match.Where, func(n any) bool {
@@ -443,29 +484,55 @@ func C03DistinctOrderByUnprojected(q *cypher.RegularQuery) bool {
 	return found
 }
 
-// C03ShortestPathBoundEndpoint: for shortestPath / allShortestPaths with an endpoint bound by an earlier
-// clause, the ids of the bound endpoint are handed to the harness function as SQL text (`insert into
-// traversal_root_filter select … from s0`). The harness runs that text with EXECUTE inside plpgsql, where
-// the CTEs of the calling statement do not exist. Shape: a shortest-path pattern part one of whose endpoint
-// variables occurs in an earlier clause.
+// C03ShortestPathBoundEndpoint: a shortest-path search runs inside plpgsql harness functions that receive
+// their primer / recursive / filter statements as SQL text and EXECUTE them. When an endpoint is bound by an
+// earlier clause – or the WHERE of the shortest-path MATCH reads a binding of an earlier clause – that text
+// names a CTE of the calling statement (`insert into traversal_root_filter … from s0`, `… where (s0.n0)…`),
+// which does not exist inside the function. Shape: a MATCH with a shortestPath / allShortestPaths pattern
+// part in which a variable occurs that an earlier clause, or an earlier pattern part of the same MATCH, binds.
 func C03ShortestPathBoundEndpoint(q *cypher.RegularQuery) bool {
 	cs := C03Clauses(q)
 	seen := map[string]bool{}
+	pendingWithWhere := false
 	for _, c := range cs {
 		if c.Match != nil {
+			local := map[string]bool{}
+			hasShortest := false
 			for _, p := range c.Match.Pattern {
-				if p == nil || !(p.ShortestPathPattern || p.AllShortestPathsPattern) {
+				if p == nil {
 					continue
 				}
-				for _, el := range p.PatternElements {
-					if np, ok := el.AsNodePattern(); ok && np.Variable != nil && seen[np.Variable.Symbol] {
+				if p.ShortestPathPattern || p.AllShortestPathsPattern {
+					hasShortest = true
+					for _, el := range p.PatternElements {
+						if np, ok := el.AsNodePattern(); ok && np.Variable != nil && (seen[np.Variable.Symbol] || local[np.Variable.Symbol]) {
+							return true
+						}
+					}
+				}
+				for v := range c03PatternVariables([]*cypher.PatternPart{p}) {
+					local[v] = true
+				}
+			}
+			if hasShortest {
+				for v := range c03VariablesIn(c03WhereOf(c.Match)) {
+					if seen[v] {
 						return true
 					}
+				}
+				// the WHERE of the WITH before this part is placed in this part, and reads the WITH's frame
+				if pendingWithWhere {
+					return true
 				}
 			}
 		}
 		for v := range c03VariablesIn(c.Node) {
 			seen[v] = true
+		}
+		if c.With != nil {
+			// only what the WITH projects survives
+			seen = c03WithExports(c.With)
+			pendingWithWhere = c.With.Where != nil
 		}
 	}
 	return false
@@ -524,6 +591,8 @@ func c03UpdateTargets(cs []C03Clause, part int) (targets map[string]bool, valueR
 					targets[v] = true
 				}
 			case *cypher.Create:
+				// the frames of a CREATE come before those of the updates, named or not
+				targets["<create>"] = true
 				for v := range c03VariablesIn(t) {
 					targets[v] = true
 				}
@@ -588,6 +657,17 @@ func C03UpdateValueReadsStaleFrame(q *cypher.RegularQuery) bool {
 						stale = true
 					}
 				}
+				// … or an entity used as such rather than through one of its properties: id(n), type(r)
+				C03WalkModel(t.Right, func(inner any, anc []any) bool {
+					if _, isVar := inner.(*cypher.Variable); isVar {
+						if len(anc) == 0 {
+							stale = true
+						} else if _, underLookup := anc[len(anc)-1].(*cypher.PropertyLookup); !underLookup {
+							stale = true
+						}
+					}
+					return true
+				})
 			}
 			return true
 		})
@@ -652,6 +732,16 @@ func C03PathWithUpdate(q *cypher.RegularQuery) bool {
 			}
 		}
 	}
+	// a path declared by a MATCH of the part is re-projected through the update frames as well
+	for _, c := range cs {
+		if c.Match != nil && c03PartHasUpdate(cs, c.Part) {
+			for _, p := range c.Match.Pattern {
+				if p != nil && p.Variable != nil {
+					return true
+				}
+			}
+		}
+	}
 	for _, c := range cs {
 		if !c03PartHasUpdate(cs, c.Part) {
 			continue
@@ -669,6 +759,476 @@ func C03PathWithUpdate(q *cypher.RegularQuery) bool {
 			if paths[v] {
 				return true
 			}
+		}
+	}
+	return false
+}
+
+// C03PatternPredicateBeforeLaterClause: a pattern predicate is rendered as a sub-query against the frame of
+// its own MATCH but is only placed where all of its dependencies are known – often one or two frames later,
+// in a select that no longer has that frame in its FROM list. (The most frequent form, the predicate being
+// rendered a second time by the next MATCH, is repaired by C03-pattern-predicate-rendered-again-by-later-match;
+// this is what remains.) Shape: a MATCH with a pattern predicate in its WHERE that is followed by another
+// reading clause in the same query part. Not narrower: where the predicate ends up depends on which other
+// conjuncts and joins consume the bindings it depends on.
+func C03PatternPredicateBeforeLaterClause(q *cypher.RegularQuery) bool {
+	cs := C03Clauses(q)
+	for i, c := range cs {
+		if c.Match == nil || !c03Contains(c03WhereOf(c.Match), c03IsPatternPredicate) {
+			continue
+		}
+		for j := i + 1; j < len(cs) && cs[j].Part == c.Part; j++ {
+			if cs[j].Kind == "match" || cs[j].Kind == "unwind" {
+				return true
+			}
+		}
+	}
+	return false
+}
+
+func c03HasVariableLength(parts []*cypher.PatternPart) bool {
+	for _, p := range parts {
+		if p == nil {
+			continue
+		}
+		for _, el := range p.PatternElements {
+			if rp, ok := el.AsRelationshipPattern(); ok && rp.Range != nil {
+				return true
+			}
+		}
+	}
+	return false
+}
+
+// c03Conjuncts splits a WHERE into its top-level AND operands.
+func c03Conjuncts(where *cypher.Where) []cypher.Expression {
+	if where == nil {
+		return nil
+	}
+	var out []cypher.Expression
+	var split func(e cypher.Expression)
+	split = func(e cypher.Expression) {
+		if c, ok := e.(*cypher.Conjunction); ok && c != nil {
+			for _, sub := range c.GetAll() {
+				split(sub)
+			}
+			return
+		}
+		out = append(out, e)
+	}
+	for _, e := range where.GetAll() {
+		split(e)
+	}
+	return out
+}
+
+// C03ExpansionConstraintSpansBindings: a WHERE conjunct that reads two or more bindings is attached to the
+// frame of the last pattern step that binds one of them. When one of the steps involved is a variable-length
+// expansion the conjunct can land inside the expansion's projection (or one of its lowered forms: exact-range
+// steps, direction selection, suffix pushdown) while still naming a binding of a fixed step that is only joined
+// later – `n0.properties …` / `e1.…` with no such FROM item. Shape: a query part that contains a variable-length
+// relationship and a MATCH WHERE conjunct in which two or more different variables occur. Not narrower: which
+// frame receives the conjunct depends on constraint balancing and on the lowerings chosen by the optimiser.
+func C03ExpansionConstraintSpansBindings(q *cypher.RegularQuery) bool {
+	cs := C03Clauses(q)
+	for _, part := range c03Parts(cs) {
+		varlen := false
+		for _, c := range cs {
+			if c.Part == part && c.Match != nil && c03HasVariableLength(c.Match.Pattern) {
+				varlen = true
+			}
+		}
+		if !varlen {
+			continue
+		}
+		for _, c := range cs {
+			if c.Part != part || c.Match == nil {
+				continue
+			}
+			for _, conj := range c03Conjuncts(c.Match.Where) {
+				if len(c03VariablesIn(conj)) >= 2 {
+					return true
+				}
+			}
+		}
+	}
+	return false
+}
+
+// C03UnwindVariableInLaterMatch: the unwound value is a FROM item (`unnest(…) as i0`) of the final select
+// only, yet a MATCH after the UNWIND that reads it in its WHERE places the conjunct inside its own frame, where
+// no such FROM item exists (`column "i0" does not exist`). Shape: an UNWIND followed, in the same query part,
+// by a MATCH whose WHERE mentions the unwind variable.
+func C03UnwindVariableInLaterMatch(q *cypher.RegularQuery) bool {
+	cs := C03Clauses(q)
+	for i, c := range cs {
+		if c.Unwind == nil || c.Unwind.Variable == nil {
+			continue
+		}
+		for j := i + 1; j < len(cs) && cs[j].Part == c.Part; j++ {
+			if cs[j].Match != nil && c03VariablesIn(c03WhereOf(cs[j].Match))[c.Unwind.Variable.Symbol] {
+				return true
+			}
+		}
+	}
+	return false
+}
+
+// C03PathProjectedWithAggregate: a WITH that projects a path next to an aggregate groups by the name of the
+// path binding (`group by pc0`) instead of by the expression it just rendered for it (`… as pc1`), and the
+// binding is not a column of the frame it reads. Shape: a WITH or RETURN projection with an aggregate function
+// and an item that is a path variable.
+func C03PathProjectedWithAggregate(q *cypher.RegularQuery) bool {
+	cs := C03Clauses(q)
+	paths := c03PathVariables(cs)
+	for _, c := range cs {
+		var proj *cypher.Projection
+		switch {
+		case c.With != nil:
+			proj = c.With.Projection
+		case c.Return != nil:
+			proj = c.Return.Projection
+		}
+		if proj == nil {
+			continue
+		}
+		hasAgg, hasPath := false, false
+		for _, it := range proj.Items {
+			pi, ok := it.(*cypher.ProjectionItem)
+			if !ok || pi == nil {
+				continue
+			}
+			if v, isVar := pi.Expression.(*cypher.Variable); isVar && v != nil && paths[v.Symbol] {
+				hasPath = true
+			}
+			if c03Contains(pi.Expression, func(n any) bool {
+				return c03IsFunction(n, "count", "sum", "avg", "min", "max", "collect")
+			}) {
+				hasAgg = true
+			}
+		}
+		if hasAgg && hasPath {
+			return true
+		}
+		// an alias of a path is a path for the parts that follow
+		if c.With != nil {
+			for _, it := range proj.Items {
+				if pi, ok := it.(*cypher.ProjectionItem); ok && pi != nil && pi.Alias != nil {
+					if v, isVar := pi.Expression.(*cypher.Variable); isVar && v != nil && paths[v.Symbol] {
+						paths[pi.Alias.Symbol] = true
+					}
+				}
+			}
+		}
+	}
+	return false
+}
+
+// C03UnwoundEntityInPattern: `with collect(n) as ns unwind ns as m match (m)-->(x)` – the unwound value is a
+// FROM item of the final select only (see C03UnwindVariableInLaterMatch); a pattern that uses it as a bound
+// node joins on `i0.id` inside its own frame, where there is no such FROM item. Shape: an UNWIND whose
+// variable occurs as a node or relationship variable in a pattern of a later MATCH of the same query part.
+func C03UnwoundEntityInPattern(q *cypher.RegularQuery) bool {
+	cs := C03Clauses(q)
+	for i, c := range cs {
+		if c.Unwind == nil || c.Unwind.Variable == nil {
+			continue
+		}
+		for j := i + 1; j < len(cs) && cs[j].Part == c.Part; j++ {
+			if cs[j].Match != nil && c03PatternVariables(cs[j].Match.Pattern)[c.Unwind.Variable.Symbol] {
+				return true
+			}
+		}
+	}
+	return false
+}
+
+// C03WithWhereOnEntityAlias: `with n, n as a where a.value > 0` – the WHERE of a WITH is placed in the next
+// frame; the alias of an entity is a second binding of the same value, and the conjunct that reads it is
+// rewritten against the entity's original name without a frame (`n0.properties`). Shape: a WITH that has a
+// WHERE and projects a variable under an alias, the WHERE mentioning that alias. (Most such queries are
+// rejected by the translator – "unable to resolve identifier" –; these are the ones it accepts.)
+func C03WithWhereOnEntityAlias(q *cypher.RegularQuery) bool {
+	for _, c := range C03Clauses(q) {
+		if c.With == nil || c.With.Where == nil || c.With.Projection == nil {
+			continue
+		}
+		used := c03VariablesIn(c.With.Where)
+		for _, it := range c.With.Projection.Items {
+			pi, ok := it.(*cypher.ProjectionItem)
+			if !ok || pi == nil || pi.Alias == nil {
+				continue
+			}
+			if _, isVar := pi.Expression.(*cypher.Variable); isVar && used[pi.Alias.Symbol] {
+				return true
+			}
+		}
+	}
+	return false
+}
+
+var c03Aggregates = []string{"count", "sum", "avg", "min", "max", "collect"}
+
+func c03IsAggregate(n any) bool { return c03IsFunction(n, c03Aggregates...) }
+
+// C03OrderByUngroupedAfterAggregate: `RETURN r, count(e) ORDER BY s.score` – after an aggregating projection
+// only its grouping keys exist (openCypher rejects the query); DAWGS accepts it and emits the sort key as is,
+// which PostgreSQL rejects ("must appear in the GROUP BY clause"). Shape: a projection with an aggregate whose
+// ORDER BY has a key that is neither an item nor an alias of the projection, contains no aggregate itself and
+// reads a variable.
+func C03OrderByUngroupedAfterAggregate(q *cypher.RegularQuery) bool {
+	found := false
+	C03WalkModel(q, func(n any, _ []any) bool {
+		p, ok := n.(*cypher.Projection)
+		if !ok || p == nil || p.Order == nil {
+			return true
+		}
+		var items []any
+		aliases := map[string]bool{}
+		hasAgg := false
+		for _, it := range p.Items {
+			if pi, isItem := it.(*cypher.ProjectionItem); isItem && pi != nil {
+				items = append(items, pi.Expression)
+				if pi.Alias != nil {
+					aliases[pi.Alias.Symbol] = true
+				}
+				if c03Contains(pi.Expression, c03IsAggregate) {
+					hasAgg = true
+				}
+			}
+		}
+		if !hasAgg {
+			return true
+		}
+		for _, si := range p.Order.Items {
+			if si == nil {
+				continue
+			}
+			if v, isVar := si.Expression.(*cypher.Variable); isVar && v != nil && aliases[v.Symbol] {
+				continue
+			}
+			same := false
+			for _, it := range items {
+				if reflect.DeepEqual(it, si.Expression) {
+					same = true
+				}
+			}
+			if same || c03Contains(si.Expression, c03IsAggregate) {
+				continue
+			}
+			if len(c03VariablesIn(si.Expression)) > 0 {
+				found = true
+			}
+		}
+		return true
+	})
+	return found
+}
+
+// C03VariableLengthRelationshipAsEntity: `-[r*]->` binds r to a list of relationships. DAWGS rejects some uses of
+// such a binding as an entity ("variable-length relationship binding … is a list") but accepts r.prop, id(r),
+// type(r), r:Kind in other positions and emits `(s0.e0).properties` on an edgecomposite[]. Shape: a variable
+// bound by a variable-length relationship pattern that occurs as the atom of a property lookup, as the argument
+// of id / type / startNode / endNode, or as the reference of a kind matcher.
+func C03VariableLengthRelationshipAsEntity(q *cypher.RegularQuery) bool {
+	lists := map[string]bool{}
+	C03WalkModel(q, func(n any, _ []any) bool {
+		if rp, ok := n.(*cypher.RelationshipPattern); ok && rp != nil && rp.Range != nil && rp.Variable != nil {
+			lists[rp.Variable.Symbol] = true
+		}
+		return true
+	})
+	if len(lists) == 0 {
+		return false
+	}
+	found := false
+	isList := func(e any) bool {
+		v, ok := e.(*cypher.Variable)
+		return ok && v != nil && lists[v.Symbol]
+	}
+	C03WalkModel(q, func(n any, _ []any) bool {
+		switch t := n.(type) {
+		case *cypher.PropertyLookup:
+			if isList(t.Atom) {
+				found = true
+			}
+		case *cypher.KindMatcher:
+			if isList(t.Reference) {
+				found = true
+			}
+		case *cypher.FunctionInvocation:
+			if c03IsFunction(t, "id", "type", "startnode", "endnode") {
+				for _, a := range t.Arguments {
+					if isList(a) {
+						found = true
+					}
+				}
+			}
+		}
+		return true
+	})
+	return found
+}
+
+// c03DeclaredBefore collects, clause by clause, the variables declared by patterns, UNWIND and WITH.
+func c03Declared(c C03Clause) map[string]bool {
+	out := map[string]bool{}
+	switch {
+	case c.Match != nil:
+		for v := range c03PatternVariables(c.Match.Pattern) {
+			out[v] = true
+		}
+	case c.Unwind != nil && c.Unwind.Variable != nil:
+		out[c.Unwind.Variable.Symbol] = true
+	case c.With != nil:
+		for v := range c03WithExports(c.With) {
+			out[v] = true
+		}
+	case c.Kind == "update":
+		C03WalkModel(c.Node, func(n any, _ []any) bool {
+			if cr, ok := n.(*cypher.Create); ok && cr != nil {
+				for v := range c03PatternVariables(cr.Pattern) {
+					out[v] = true
+				}
+			}
+			return true
+		})
+	}
+	return out
+}
+
+// C03PatternPredicateIntroducesVariable: a pattern predicate may only use variables that are already bound
+// (openCypher rejects `WHERE ()--(x)` with a new x). DAWGS accepts it, binds x inside the predicate's sub-query
+// and lets later clauses read it (`RETURN x` → `n1` with no FROM item). Shape: a pattern predicate that names a
+// node or relationship variable which no pattern, UNWIND or WITH of the same or an earlier clause declares.
+func C03PatternPredicateIntroducesVariable(q *cypher.RegularQuery) bool {
+	cs := C03Clauses(q)
+	declared := map[string]bool{}
+	for _, c := range cs {
+		for v := range c03Declared(c) {
+			declared[v] = true
+		}
+		found := false
+		C03WalkModel(c.Node, func(n any, _ []any) bool {
+			pp, ok := n.(*cypher.PatternPredicate)
+			if !ok || pp == nil {
+				return true
+			}
+			for _, el := range pp.PatternElements {
+				if np, isNode := el.AsNodePattern(); isNode && np.Variable != nil && !declared[np.Variable.Symbol] {
+					found = true
+				}
+				if rp, isRel := el.AsRelationshipPattern(); isRel && rp.Variable != nil && !declared[rp.Variable.Symbol] {
+					found = true
+				}
+			}
+			return true
+		})
+		if found {
+			return true
+		}
+		if c.With != nil {
+			declared = c03WithExports(c.With)
+		}
+	}
+	return false
+}
+
+// C03EmptyListLiteral: `[]` is emitted as `array []` without a type; PostgreSQL cannot determine the type of an
+// empty array constructor unless it is cast. Shape: an empty list literal.
+func C03EmptyListLiteral(q *cypher.RegularQuery) bool {
+	return c03Contains(q, func(n any) bool {
+		l, ok := n.(*cypher.ListLiteral)
+		return ok && l != nil && len(*l) == 0
+	})
+}
+
+// C03NestedAggregate: `count(… count(n) …)` – openCypher rejects nested aggregation; DAWGS emits it and
+// PostgreSQL rejects it ("aggregate function calls cannot be nested"). Shape: an aggregate call below an aggregate call.
+func C03NestedAggregate(q *cypher.RegularQuery) bool {
+	found := false
+	C03WalkModel(q, func(n any, anc []any) bool {
+		if c03IsAggregate(n) {
+			for _, a := range anc {
+				if c03IsAggregate(a) {
+					found = true
+				}
+			}
+		}
+		return true
+	})
+	return found
+}
+
+// C03VariableReboundWithOtherRole: one name used for two kinds of thing – a path and a node (`match p = (p)-->()`),
+// a relationship in two MATCH clauses (`match ()-[r]->() match ()-[r]->()`), a quantifier variable that is also its
+// own source (`any(x in labels(x) …)`). openCypher rejects these; DAWGS accepts them and the second role reads a
+// binding of the first kind. Shape: a name that occurs in two different roles among {path, node, relationship,
+// quantifier / UNWIND variable}, or a relationship variable that two MATCH clauses declare.
+func C03VariableReboundWithOtherRole(q *cypher.RegularQuery) bool {
+	roles := map[string]map[string]bool{}
+	add := func(name, role string) {
+		if name == "" {
+			return
+		}
+		if roles[name] == nil {
+			roles[name] = map[string]bool{}
+		}
+		roles[name][role] = true
+	}
+	relDecls := map[string]int{}
+	for _, c := range C03Clauses(q) {
+		if c.Match != nil {
+			seenHere := map[string]bool{}
+			for _, p := range c.Match.Pattern {
+				if p == nil {
+					continue
+				}
+				for _, el := range p.PatternElements {
+					if rp, ok := el.AsRelationshipPattern(); ok && rp.Variable != nil && !seenHere[rp.Variable.Symbol] {
+						seenHere[rp.Variable.Symbol] = true
+						relDecls[rp.Variable.Symbol]++
+					}
+				}
+			}
+		}
+	}
+	for _, n := range relDecls {
+		if n > 1 {
+			return true
+		}
+	}
+	C03WalkModel(q, func(n any, _ []any) bool {
+		switch t := n.(type) {
+		case *cypher.PatternPart:
+			if t.Variable != nil {
+				add(t.Variable.Symbol, "path")
+			}
+		case *cypher.NodePattern:
+			if t.Variable != nil {
+				add(t.Variable.Symbol, "node")
+			}
+		case *cypher.RelationshipPattern:
+			if t.Variable != nil {
+				add(t.Variable.Symbol, "relationship")
+			}
+		case *cypher.IDInCollection:
+			if t.Variable != nil {
+				add(t.Variable.Symbol, "element")
+				if c03VariablesIn(t.Expression)[t.Variable.Symbol] {
+					add(t.Variable.Symbol, "own-source")
+				}
+			}
+		case *cypher.Unwind:
+			if t.Variable != nil {
+				add(t.Variable.Symbol, "element")
+			}
+		}
+		return true
+	})
+	for _, r := range roles {
+		if len(r) > 1 {
+			return true
 		}
 	}
 	return false
